@@ -141,6 +141,50 @@ func ruleStateOnlyForVerifiedFrames(c *Ctx, rule string) {
 	if n == 0 {
 		c.Fail(rule, "state-change-after-crc", getMsg.Pos(), "unresolved", "the decoder makes no call that updates the handler's week state")
 	}
+	// the week state is stored nowhere else: only the constructor and the four converters (each on its
+	// own success path, S2/S4) assign the start-of-week and remembered-timestamp fields.  A reset "to
+	// be safe" in the decoder (after a CRC failure, after a conversion error) hides a rollover.
+	allowed := map[*ssa.Function]bool{}
+	for _, n := range []string{"New", "(*Handler).getUTCFromGPSTime", "(*Handler).getUTCFromGalileoTime", "(*Handler).getUTCFromBeidouTime", "(*Handler).getUTCFromGlonassTime"} {
+		if f := P.Func("rtcm/handler", n); f != nil {
+			allowed[f] = true
+		}
+	}
+	stray := false
+	for _, g := range P.ModFuncs() {
+		if allowed[g] {
+			continue
+		}
+		eachInstr(g, func(ins ssa.Instruction) {
+			st, ok := ins.(*ssa.Store)
+			if !ok {
+				return
+			}
+			fa, ok := st.Addr.(*ssa.FieldAddr)
+			if !ok {
+				return
+			}
+			pt, ok := fa.X.Type().Underlying().(*types.Pointer)
+			if !ok || !types.Identical(pt.Elem(), H) {
+				return
+			}
+			f, _ := fieldOf(fa)
+			if f == nil {
+				return
+			}
+			l := strings.ToLower(f.Name())
+			for _, k := range []string{"gps", "glonass", "galileo", "beidou"} {
+				if strings.Contains(l, k) {
+					stray = true
+					c.Fail(rule, "week-state-written-only-by-converters("+P.FnKey(g)+" "+f.Name()+")", ins.Pos(), "refuted", P.FnKey(g)+" assigns the handler's week state ("+f.Name()+") outside the converters: a reset or adjustment there can hide or invent a week rollover")
+					return
+				}
+			}
+		})
+	}
+	if !stray {
+		c.OK(rule, "week-state-written-only-by-converters", getMsg.Pos(), "only New and the four converters store the week-state fields")
+	}
 }
 
 func checkC06(c *Ctx) {
@@ -293,12 +337,29 @@ func checkC06(c *Ctx) {
 			}
 			for _, st := range stores {
 				// S4: no error return reachable after the store
+				// error values known to be nil where the store happens (`if err == nil { store }
+				// return t, err`): returning one of them afterwards is not an error return
+				knownNil := map[ssa.Value]bool{}
+				for _, ft := range dominatingFacts(st.Block()) {
+					if b, ok := ft.Cond.(*ssa.BinOp); ok && (b.Op == token.NEQ || b.Op == token.EQL) {
+						var ev ssa.Value
+						if isNilConst(b.Y) && isErrorType(b.X.Type()) {
+							ev = b.X
+						} else if isNilConst(b.X) && isErrorType(b.Y.Type()) {
+							ev = b.Y
+						}
+						if ev != nil && ((b.Op == token.EQL && ft.Val) || (b.Op == token.NEQ && !ft.Val)) {
+							knownNil[ev] = true
+						}
+					}
+				}
 				q := pathQuery{goal: func(i ssa.Instruction) bool {
 					r, ok := i.(*ssa.Return)
 					if !ok || len(r.Results) < 2 {
 						return false
 					}
-					return !isNilConst(r.Results[len(r.Results)-1])
+					e := r.Results[len(r.Results)-1]
+					return !isNilConst(e) && !knownNil[e]
 				}}
 				if path, _ := q.search(st.Block(), instrIndex(st)); path != nil {
 					c.Fail("C06-S4", fmt.Sprintf("no-write-on-error(%s %s)", k, f.Name()), st.Pos(), "refuted", "Handler state is written on a path that then reports an error: an illegal timestamp disturbs later times", P.blockPath(path)...)
@@ -510,6 +571,53 @@ func checkRollover(c *Ctx, conv map[string]*ssa.Function) {
 	})
 	if found != 1 {
 		c.Fail("C06-S5", "rollover-strict(week):site", helper.Pos(), "refuted", fmt.Sprintf("expected exactly one AddDate(0,0,7) in the rollover helper, found %d", found))
+	}
+	// ... and whenever previous > current: the start of week is handed back unchanged only on a path
+	// where previous > current is known to be false (an extra condition on the rollover, such as
+	// "unless the timestamp is 0", leaves the week behind for good)
+	isRolloverFact := func(f EdgeFact) (is, holds bool) {
+		b, isB := f.Cond.(*ssa.BinOp)
+		if !isB {
+			return false, false
+		}
+		switch {
+		case b.Op == token.GTR && b.X == ssa.Value(prev) && b.Y == ssa.Value(ts):
+			return true, f.Val
+		case b.Op == token.LSS && b.X == ssa.Value(ts) && b.Y == ssa.Value(prev):
+			return true, f.Val
+		case b.Op == token.LEQ && b.X == ssa.Value(prev) && b.Y == ssa.Value(ts):
+			return true, !f.Val
+		case b.Op == token.GEQ && b.X == ssa.Value(ts) && b.Y == ssa.Value(prev):
+			return true, !f.Val
+		}
+		return false, false
+	}
+	for _, r := range returnsOf(helper) {
+		if len(r.Results) != 3 || !isNilConst(r.Results[2]) {
+			continue
+		}
+		phi, ok := r.Results[1].(*ssa.Phi)
+		if !ok {
+			continue
+		}
+		for i, e := range phi.Edges {
+			if e != ssa.Value(helper.Params[2]) {
+				continue // the advanced week (checked above) or something else
+			}
+			p := phi.Block().Preds[i]
+			facts := dominatingFacts(p)
+			if ifi, ok := lastInstr(p).(*ssa.If); ok && len(p.Succs) == 2 && p.Succs[0] != p.Succs[1] {
+				facts = append(facts, EdgeFact{ifi.Cond, p.Succs[0] == phi.Block(), p})
+			}
+			notRolled := false
+			for _, f := range facts {
+				if is, holds := isRolloverFact(f); is && !holds {
+					notRolled = true
+				}
+			}
+			c.Check(notRolled, "C06-S5", fmt.Sprintf("rollover-complete(week)#%d", i+1), phi.Pos(), "the week is kept only when previous > current is false",
+				"the week is kept although previous > current may hold: the rollover is subject to an extra condition, and a message that misses it leaves every later time a week early")
+		}
 	}
 	// the range check precedes and uses '>' MaxTimestamp
 	maxTS := int64(7*24*3600*1000 - 1)
